@@ -11,7 +11,7 @@ CONSTANTS
   HfpTTL <- MC_HfpTTL
   Methods = {"GET", "POST"}
   TTLs = {1}
-  Outcomes = {"cacheable", "uncacheable", "error", "timeout"}
+  Outcomes = {"cacheable", "uncacheable", "error", "timeout", "panic"}
   LoadResults = {}
   SaveResults = {TRUE}
   Jumps = {1, 40}
@@ -21,7 +21,7 @@ CONSTANTS
   MaxEnt = 1
   MaxPurges = 0
   MaxKills = 0
-  MaxDrops = 0
+  MaxDrops = 2
   UnnamedPurge = FALSE
   ResumeRelooks = TRUE
   AgeAtDecision = TRUE
@@ -31,7 +31,7 @@ CONSTANTS
   PurgeHoldsShard = TRUE
   LoadUnderLock = TRUE
   AbsentPurge = FALSE
-  Reapplies = FALSE
+  Reapplies = TRUE
   Ghost = TRUE
   GenDepth = 60
 INVARIANT Emit
